@@ -170,13 +170,14 @@ class Lan(object):
                              revision_only=0):
         req = create_request_by_name('GetLanConfigurationParameters')
         req.command.get_parameter_revision_only = revision_only
-        if revision_only != 1:
-            req.command.channel_number = channel
-            req.parameter_selector = parameter_selector
-            req.set_selector = set_selector
-            req.block_selector = block_selector
+        req.command.channel_number = channel
+        req.parameter_selector = parameter_selector
+        req.set_selector = set_selector
+        req.block_selector = block_selector
         rsp = self.send_message(req)
         check_rsp_completion_code(rsp)
+        if revision_only:
+            return rsp.parameter_revision
         return rsp.data
 
     def set_lan_config_param(self, channel,
